@@ -22,6 +22,9 @@ use crate::utils::TimestampedPartitionOffset;
 #[cfg(feature = "security")]
 pub use self::network::SecurityConfig;
 
+#[cfg(feature = "verif_hooks")]
+pub use self::network::verif_hooks;
+
 use crate::codecs::{FromByte, ToByte};
 use crate::error::{Error, KafkaCode, Result};
 use crate::protocol::{self, ResponseParser};
